@@ -20,6 +20,8 @@
             &&& nfa_tree(nfa) && nfa_links(nfa, lm_of(self.match_kind)) && nfa_outs_ok(nfa)
             // C15: the states >= 2 are exactly the non-empty prefixes of the registered patterns
             &&& sound_facts(nfa)
+            // leftmost kinds: the link / output-position facts from which the optimality of the leftmost stream follows (unit lm_opt_bw)
+            &&& !(self.match_kind is Standard) ==> lm_opt_facts(nfa)
             &&& trie_ok(nfa) && reach_ok(nfa) && add_inv(nfa) && seen_is(nfa, into_items(patvals), into_items(patvals).len() as int)
             // C06: registered patterns carry the value of their pair; standard kind: the (assumed) Aho-Corasick contract of the passes
             &&& values_are(nfa, into_items(patvals), into_items(patvals).len() as int)
@@ -115,6 +117,7 @@
         lemma_frame_keeps_trie(n_a, nfa);
         lemma_frame_keeps_add_inv(n_a, nfa);
         lemma_sound_facts_intro(nfa);
+        if !(self.match_kind is Standard) { lemma_lm_opt_facts_intro(nfa); }
         lemma_frame_keeps_values(n_a, nfa, items, items.len() as int);
         assert(fails_ok(nfa, lm_of(self.match_kind))) by { lemma_links_same_fail(n_f, nfa, lm_of(self.match_kind)); }
         lemma_trie_gives_tree(nfa);
